@@ -390,7 +390,12 @@ class Project(MessageHandler):
         for task in self.tasks:
             if not task.leaf():
                 continue
-            deps = task.get("depends", scIdx) or []
+            # Own dependencies and those inherited from every enclosing container
+            task_scenario = task.data[scIdx] if task.data else None
+            if task_scenario is not None and hasattr(task_scenario, "getAllDependencies"):
+                deps = task_scenario.getAllDependencies()
+            else:
+                deps = task.get("depends", scIdx) or []
             for dep in deps:
                 if isinstance(dep, dict):
                     pred = dep.get("task")
